@@ -593,22 +593,45 @@ pub fn observe(config: &Config) -> Result<Option<LocalObs>, String> {
     res
 }
 
-/// One object as stored: name, hash in the meta data, content.
-pub type RawObject = (Vec<u8>, [u8; 32], Vec<u8>);
-
-/// Reads the archive's objects with their stored hashes (on a copy).
-pub fn observe_raw(config: &Config) -> Result<Option<Vec<RawObject>>, String> {
+/// State and all objects in one read; the set names the objects whose
+/// stored hash differs from the hash of their content or whose content is
+/// not one of the universe's.
+pub fn observe_full(config: &Config) -> Result<Option<(LocalObs, std::collections::BTreeSet<String>)>, String> {
     let path = match archive_path(config) {
         Some(path) => path,
         None => return Ok(None),
     };
-    let copy = config.cache_dir.join("observe-raw-copy.bin");
+    let copy = config.cache_dir.join("observe-full-copy.bin");
     std::fs::copy(&path, &copy).map_err(|e| format!("copy: {e}"))?;
     let res = (|| {
         let archive = RrdpArchive::open(Arc::new(copy.clone())).map_err(|_| "open failed".to_string())?;
-        let mut objs = archive.verif_objects_with_hash().map_err(|e| format!("objects: {e}"))?;
-        objs.sort();
-        Ok(Some(objs))
+        let state = archive.load_state().map_err(|_| "state failed".to_string())?;
+        let mut objs = BTreeMap::new();
+        let mut torn = std::collections::BTreeSet::new();
+        for (name, hash, data) in archive.verif_objects_with_hash().map_err(|e| format!("objects: {e}"))? {
+            if name == b"state" { continue }
+            let name = String::from_utf8_lossy(&name).into_owned();
+            if sha256(&data) != hash || bytes_content(&data).is_none() {
+                torn.insert(name.clone());
+            }
+            objs.insert(name, data);
+        }
+        let mut delta_state = BTreeMap::new();
+        for (k, v) in state.delta_state.iter() {
+            let mut h = [0u8; 32];
+            h.copy_from_slice(v.as_slice());
+            delta_state.insert(*k, h);
+        }
+        Ok(Some((LocalObs {
+            objs,
+            session: uuid_session(state.session),
+            serial: state.serial,
+            etag: state.etag.as_ref().map(|b| b.to_vec()),
+            lm: state.last_modified_ts,
+            updated: state.updated_ts,
+            best_before: state.best_before_ts,
+            delta_state,
+        }, torn)))
     })();
     let _ = std::fs::remove_file(&copy);
     res
